@@ -871,6 +871,48 @@ def nrm2(ctx):
         b, x, st = [s for s in sites if s[2][0] != "yes"][0]
         r.report("NRM-2|deromaniser-string", fn_loc(b, x.get("ln")), b.path,
                  "a deromaniser's string is stored as typed and compared with *normalised* word text: an alias such as `ã > o`, `ɚ > X` or `ǝ > X` (any string containing a character normalise() rewrites) never matches, so the text does not behave as if X had been typed")
+    # the other direction: a *romaniser's* string is output, printed as the user gave it -- a normalise() on the way into a
+    # Replacement must be under a test of the alias kind
+    for b, x, st in sites:
+        par = hirq.parent_map(b.hir["body"])
+        binds = Bindings(b.hir["body"], b.hir.get("params"))
+        # every normalise call in the derivation of the string
+        def derivation(e, depth=0, seen=None):
+            seen = seen if seen is not None else set()
+            out = [e]
+            for y in hirq.walk(e):
+                if y["e"] == "path" and y.get("hid") in binds.src and y["hid"] not in seen and depth < 6:
+                    seen.add(y["hid"])
+                    src = binds.src[y["hid"]]
+                    if src[0] == "expr":
+                        out += derivation(src[1], depth + 1, seen)
+            return out
+        norm_calls = [y for e in derivation(x["args"][0]) for y in hirq.walk(e) if y["e"] == "call" and (hirq.strip(y["f"]).get("path") or "") == NORMALISE]
+        for k, nc in enumerate(norm_calls):
+            guarded = False
+            z, child = par.get(id(nc)), nc
+            while z is not None and not guarded:
+                if z.get("e") == "if":
+                    mentions = [y for y in hirq.walk(z["cond"]) if y["e"] == "path" and (y.get("path") or "").startswith("asca::alias::AliasKind::")]
+                    in_then = any(y is child for y in hirq.walk(z["then"]))
+                    c0 = hirq.strip(z["cond"])
+                    for mpath in mentions:
+                        v = mpath["path"].rsplit("::", 1)[-1]
+                        op = c0.get("op") if c0.get("e") == "binary" else None
+                        derom_branch = (v == "Deromaniser" and ((op == "Eq" and in_then) or (op == "Ne" and not in_then))) or \
+                                       (v == "Romaniser" and ((op == "Ne" and in_then) or (op == "Eq" and not in_then)))
+                        if derom_branch:
+                            guarded = True
+                if z.get("e") == "match":
+                    for arm in z.get("arms", []):
+                        if any(y is child for y in hirq.walk(arm["body"])) and any((p_.get("path") or "").endswith("AliasKind::Deromaniser") for p_ in hirq.flat_pats(arm["pat"])):
+                            guarded = True
+                child = z
+                z = par.get(id(z))
+            r.inst("%s: normalise() on the way into a Replacement is applied to deromanisers only" % b.path, fn_loc(b, nc.get("ln")), "ok" if guarded else "report")
+            if not guarded:
+                r.report("NRM-2|romaniser-string-normalised|%s#%d" % (b.path.rsplit("::", 1)[-1], k), fn_loc(b, nc.get("ln")), b.path,
+                         "the replacement string of every alias -- also of a romaniser, whose string is *printed* -- goes through normalise(): `ə > ǝ` prints ə again, `ħ > +ℏ` prints ħħ, precomposed letters come out decomposed")
     r.analysed = {"replacement_ctor_sites": len(sites), "normalised_at_parse": at_parse, "normalised_at_comparison": at_cmp}
     return r
 
@@ -1694,3 +1736,258 @@ def _root_of(e):
     while isinstance(e, dict) and e.get("e") in ("field", "index", "unary"):
         e = hirq.strip(e["a"])
     return e
+
+
+# ---------------------------------------------------------------- ERR-6: token columns are cursor values
+
+def _cursor_derived(e, binds, depth=0):
+    """the expression is the lexer cursor `self.pos`, that plus/minus a literal, or a local initialised with such a value"""
+    e = hirq.strip(e)
+    if not isinstance(e, dict) or depth > 8:
+        return False
+    k = e.get("e")
+    if k == "field" and e.get("name") == "pos" and hirq.strip(e["a"]).get("local") == "self":
+        return True
+    if k == "binary" and e.get("op") in ("Add", "Sub"):
+        a, b = hirq.strip(e["a"]), hirq.strip(e["b"])
+        if b.get("e") == "lit" and isinstance(b.get("lit"), int):
+            return _cursor_derived(a, binds, depth + 1)
+        if a.get("e") == "lit" and isinstance(a.get("lit"), int) and e["op"] == "Add":
+            return _cursor_derived(b, binds, depth + 1)
+        return False
+    if k == "path" and "hid" in e:
+        s = binds.src.get(e["hid"])
+        if s and s[0] == "expr":
+            return _cursor_derived(s[1], binds, depth + 1)
+        return False
+    return False
+
+
+ERR6_EXCEPTIONS = {
+    ("asca::lexer::Lexer::string_match", "Position", "end"):
+        "`start + buffer.len()`: the buffer is what get_string chopped with `is_ascii_alphabetic`, one byte per character",
+    ("asca::alias::lexer::AliasLexer::string_match", "AliasPosition", "end"):
+        "`start + buffer.len()`: the buffer is what get_string chopped with `is_ascii_alphabetic`, one byte per character",
+}
+
+
+def err6(ctx):
+    """The carets of a syntax error are drawn from token columns. A column is a *character* index into the line: in both
+    lexers the start / end handed to Token::new, Position::new and AliasPosition::new are the cursor `self.pos` (read
+    before and after the token was consumed), never something computed from string lengths (bytes)."""
+    r = RuleResult("ERR-6", "in the lexers every token span (start, end) is a value of the cursor `self.pos` (possibly +/- a literal, possibly through a local), never a computed length", floor=40)
+    lib = ctx.lib
+    CT = {"asca::lexer::Token::new": (4, 5), "asca::lexer::Position::new": (2, 3), "asca::alias::AliasPosition::new": (2, 3)}
+    n = 0
+    for b in lib.bodies:
+        if b.in_test_mod() or not b.hir or b.kind == "closure" or not b.path.startswith(("asca::lexer::Lexer", "asca::alias::lexer::AliasLexer")):
+            continue
+        binds = None
+        k = 0
+        for x in hirq.walk(b.hir["body"]):
+            if x["e"] != "call":
+                continue
+            p = hirq.strip(x["f"]).get("path") or ""
+            if p not in CT or len(x["args"]) <= CT[p][1]:
+                continue
+            binds = binds or Bindings(b.hir["body"], b.hir.get("params"))
+            for which, idx in zip(("start", "end"), CT[p]):
+                n += 1
+                ok = _cursor_derived(x["args"][idx], binds)
+                a0 = hirq.strip(x["args"][idx])
+                if not ok and a0.get("e") == "path" and binds.src.get(a0.get("hid"), (None,))[0] == "param":
+                    # a helper that is handed the span: every caller must hand it cursor values
+                    pname = binds.src[a0["hid"]][1]
+                    pi = (b.param_names or []).index(pname) if pname in (b.param_names or []) else None
+                    sites = []
+                    for cb in lib.bodies:
+                        if cb.in_test_mod() or not cb.hir or cb.kind == "closure":
+                            continue
+                        cbinds = None
+                        for y in hirq.walk(cb.hir["body"]):
+                            if y["e"] == "mcall" and y.get("def") == b.path and pi is not None:
+                                cbinds = cbinds or Bindings(cb.hir["body"], cb.hir.get("params"))
+                                args = [y["recv"]] + list(y["args"])
+                                sites.append(_cursor_derived(args[pi], cbinds) if pi < len(args) else False)
+                    ok = bool(sites) and all(sites)
+                loc = fn_loc(b, x.get("ln"))
+                exc = ERR6_EXCEPTIONS.get((b.path, p.rsplit("::", 2)[-2], which))
+                if not ok and exc and k == 0:
+                    r.exceptions.append("ERR-6 %s %s: %s" % (b.path, which, exc))
+                    r.inst("%s: %s #%d: `%s` — exception: %s" % (b.path.rsplit("::", 1)[-1], p.rsplit("::", 2)[-2] + "::new", k, which, exc), loc, "ok", nontrivial=False)
+                    continue
+                r.inst("%s: %s #%d: `%s` is a cursor value" % (b.path.rsplit("::", 1)[-1], p.rsplit("::", 2)[-2] + "::new", k, which), loc, "ok" if ok else "report")
+                if not ok:
+                    r.report("ERR-6|%s|%s#%d|%s" % (b.path, p.rsplit("::", 2)[-2], k, which), loc, b.path,
+                             "the %s column of a token is not read from the lexer cursor `self.pos` but computed: columns are character indices, a length in bytes (`value.len()`) is too large for `∅`, `…`, `⋯` and every other non-ASCII token, and the formatter's caret arithmetic overflows the line" % which)
+            k += 1
+    if n < 40:
+        raise AnchorMissing("ERR-6: %d span arguments examined in the two lexers (expected >= 40)" % n)
+    r.analysed = {"span_arguments": n}
+    return r
+
+
+# ---------------------------------------------------------------- TAB-8: alpha and binary modifiers land in the same slot
+
+def tab8(ctx):
+    """`[αsec.stress]` and `[+sec.stress]` are the same modifier with different values: in get_param_args (rule parser and
+    alias parser) the Alpha branch and the Binary branch of the suprasegmental arm assign the same slot for every
+    SupraType, and the four kinds go to four different slots."""
+    r = RuleResult("TAB-8", "get_param_args: for every SupraType the alpha-valued and the binary-valued modifier are stored in the same SupraSegs slot, and Long/Overlong/Stress/SecStress go to length[0]/length[1]/stress[0]/stress[1]", floor=8)
+    lib = ctx.lib
+    WANT = {"Long": "length[0]", "Overlong": "length[1]", "Stress": "stress[0]", "SecStress": "stress[1]"}
+    n = 0
+    for path in ("asca::parser::Parser::get_param_args", "asca::alias::parser::AliasParser::get_param_args"):
+        b = ctx.fn(lib, path)
+        tables = {}
+        for m in hirq.matches(b):
+            if not (m.get("sty") or "").lstrip("&").endswith("SupraType"):
+                continue
+            # which value kind does this match sit under: the nearest enclosing arm with a Mods::<X> pattern
+            par = hirq.parent_map(b.hir["body"])
+            kind = None
+            for mm in hirq.matches(b):
+                for arm in mm["arms"]:
+                    if any(y is m for y in hirq.walk(arm["body"])):
+                        for p in hirq.flat_pats(arm["pat"]):
+                            if (p.get("path") or "").rsplit("::", 2)[-2:-1] == ["Mods"]:
+                                kind = p["path"].rsplit("::", 1)[-1]
+            if kind is None:
+                continue
+            tab = {}
+            for arm in m["arms"]:
+                for p in hirq.flat_pats(arm["pat"]):
+                    v = (p.get("path") or "").rsplit("::", 1)[-1]
+                    if v in WANT:
+                        slots = []
+                        for a in hirq.walk(arm["body"]):
+                            if a["e"] == "assign":
+                                l = hirq.strip(a["lhs"])
+                                if l.get("e") == "index" and hirq.strip(l["a"]).get("e") == "field" and hirq.strip(l["i"]).get("e") == "lit":
+                                    slots.append("%s[%s]" % (hirq.strip(l["a"])["name"], hirq.strip(l["i"])["lit"]))
+                        tab[v] = (slots, arm.get("ln"))
+            tables[kind] = tab
+        if not tables:
+            raise AnchorMissing("TAB-8: %s: no match on SupraType under a Mods arm" % path)
+        short = path.rsplit("::", 2)[-2]
+        for kind, tab in sorted(tables.items()):
+            for v, want in WANT.items():
+                if v not in tab:
+                    continue
+                n += 1
+                slots, ln = tab[v]
+                ok = slots == [want]
+                r.inst("%s: %s-valued %s is stored in %s" % (short, kind.lower(), v, slots), fn_loc(b, ln), "ok" if ok else "report")
+                if not ok:
+                    r.report("TAB-8|%s|%s|%s" % (short, kind, v), fn_loc(b, ln), path,
+                             "a %s-valued [%s] modifier is stored in %s instead of %s: `[%s%s]` is read as another modifier (a stress modifier lengthens, a length modifier stresses)"
+                             % (kind.lower(), v, slots or "no slot", want, "α" if kind == "Alpha" else "+", {"Long": "long", "Overlong": "overlong", "Stress": "stress", "SecStress": "sec.stress"}[v]))
+    if n < 8:
+        raise AnchorMissing("TAB-8: %d (value kind, SupraType) rows read (expected >= 8)" % n)
+    return r
+
+
+# ---------------------------------------------------------------- CLI-8: `asca seq` runs every tag it iterates over
+
+def cli8(ctx):
+    """Without `-t`, `asca seq` runs every tag of the config in turn: every trip round the loop over the config entries
+    passes handle_sequence (or leaves the function with an error). A `continue` in front of it -- e.g. for a tag that an
+    earlier tag already pulled into the cache as its `%` parent -- means that tag's output is never printed or written."""
+    r = RuleResult("CLI-8", "cli::seq::run: every iteration of the loop over the config entries passes handle_sequence (no tag is skipped)", floor=1)
+    bn = ctx.bin
+    b = ctx.fn(bn, "asca_bin::cli::seq::run")
+    cfg = b.cfg
+    H = {i for i, t in b.calls() if (callee_path(t) or "") == "asca_bin::cli::seq::handle_sequence"}
+    if not H:
+        raise AnchorMissing("CLI-8: seq::run does not call handle_sequence")
+    n = 0
+    for h, body in cfg.loops:
+        t = b.blocks[h]["t"]
+        if t["k"] != "call" or not (t["callee"].get("def") or "").endswith("Iterator::next") or "ASCAConfig" not in (t["callee"].get("inst") or ""):
+            continue
+        n += 1
+        body = set(body)
+        nxt = t.get("t")
+        sw = b.blocks[nxt]["t"] if nxt is not None else {}
+        some = dict((v, tg) for v, tg in sw.get("vals", [])).get(1) if sw.get("k") == "switch" else None
+        if some is None:
+            raise AnchorMissing("CLI-8: seq::run: `Some(seq)` edge of the loop over the config not found")
+        reach = cfg.reachable_from(some, avoid=(H & body) | (set(range(len(b.blocks))) - body))
+        spins = any(h in cfg.succ[x] for x in reach) and some not in H
+        loc = ":".join((t.get("loc") or b.loc).split(":")[:2])
+        r.inst("seq::run: the loop over the config entries calls handle_sequence on every iteration", loc, "ok" if not spins else "report")
+        if spins:
+            r.report("CLI-8|seq::run|tag-skipped", loc, b.path,
+                     "an iteration of the loop over the config entries can go on to the next entry without calling handle_sequence: that tag is neither printed nor written (e.g. a tag already in the cache because a tag declared before it names it as its `%` parent)")
+    if n == 0:
+        raise AnchorMissing("CLI-8: seq::run: loop over the config entries not found")
+    return r
+
+
+# ---------------------------------------------------------------- PUR-6: the applied rules are the parsed rules
+
+def pur6(ctx):
+    """Each word is rewritten by *the rule list the user gave*. In the library's entry points the value handed to
+    apply_rule_groups / apply_rules_trace is the result of parse_rule_groups and nothing else has been allowed to edit it
+    in between (no `&mut` borrow of it, no reassignment): a pass that prunes or reorders rules after looking at the whole
+    word list makes the result for one word depend on the other words."""
+    from engine_flw2 import _single_def
+    r = RuleResult("PUR-6", "in every library entry point the rules given to apply_rule_groups / apply_rules_trace are the unedited result of parse_rule_groups (never borrowed mutably, never reassigned in between)", floor=3)
+    lib = ctx.lib
+    APPLY = ("asca::apply_rule_groups", "asca::apply_rules_trace")
+    n = 0
+    for b in lib.bodies:
+        if b.in_test_mod() or not b.blocks or b.kind == "closure":
+            continue
+        applies = [(i, t) for i, t in b.calls() if (callee_path(t) or "") in APPLY]
+        if not applies:
+            continue
+        for i, t in applies:
+            n += 1
+            a = t["args"][0]
+            # &rules -> (deref) -> rules local
+            l = a["pl"]["l"] if a.get("k") in ("copy", "move") else None
+            root = None
+            for _ in range(8):
+                if l is None:
+                    break
+                if b.local_name(l):
+                    root = l
+                    break
+                d = _single_def(b, l)
+                if d is None:
+                    break
+                if d.get("k") == "ref":
+                    l = d["pl"]["l"]
+                elif d.get("k") == "use" and d["op"].get("k") in ("copy", "move"):
+                    l = d["op"]["pl"]["l"]
+                elif d.get("k") == "call" and (d["t"]["callee"].get("def") or "").endswith(("Deref::deref", "AsRef::as_ref", "Vec::as_slice")):
+                    l = d["t"]["args"][0]["pl"]["l"]
+                else:
+                    break
+            loc = ":".join((t.get("loc") or b.loc).split(":")[:2])
+            if root is None:
+                if b.is_pub or b.path in ("asca::run",):
+                    r.inst("%s: rules handed to %s could not be traced to a local" % (b.path, callee_path(t).rsplit("::", 1)[-1]), loc, "report")
+                    r.report("PUR-6|%s|untraced" % b.path, loc, b.path, "the rule list handed to the applier is not a local that holds the parse result")
+                continue
+            # provenance: every definition of root comes (through `?`) from parse_rule_groups, or root is a parameter
+            is_param = 1 <= root <= len(b.param_tys or [])
+            muts = []
+            for bi, bl in enumerate(b.blocks):
+                if bl.get("cleanup"):
+                    continue
+                for s_ in bl["s"]:
+                    if s_["k"] == "assign" and s_["rv"].get("k") == "ref" and s_["rv"].get("mut") and s_["rv"]["pl"]["l"] == root and not s_.get("exp"):
+                        muts.append(s_.get("loc"))
+            defs = [s_ for bl in b.blocks for s_ in bl["s"] if s_["k"] == "assign" and s_["lhs"]["l"] == root and not s_["lhs"]["p"]]
+            from_parse = is_param or any((callee_path(tt) or "") == "asca::parse_rule_groups" for _, tt in b.calls())
+            ok = not muts and len(defs) <= 1 and from_parse
+            r.inst("%s: `%s` goes from parse_rule_groups to %s untouched" % (b.path, b.local_name(root), callee_path(t).rsplit("::", 1)[-1]), loc, "ok" if ok else "report")
+            if not ok:
+                r.report("PUR-6|%s|%s" % (b.path, "edited" if muts or len(defs) > 1 else "origin"), ":".join((muts[0] if muts else (t.get("loc") or b.loc)).split(":")[:2]), b.path,
+                         "the parsed rule list `%s` is %s before it is applied: the rules a word is rewritten with are no longer the user's list -- and if the edit looks at the words, a word's result depends on the other lines" % (
+                             b.local_name(root), "borrowed mutably / reassigned" if muts or len(defs) > 1 else "not the result of parse_rule_groups"))
+    if n < 3:
+        raise AnchorMissing("PUR-6: %d calls of apply_rule_groups / apply_rules_trace (expected >= 3)" % n)
+    return r
